@@ -163,7 +163,7 @@ def run(ctx):
         ctx.hist("requests_handed", handed)
         f = judge(stream, st)
         if f:
-            fails.append((tag, stream, f))
+            fails.append((tag, stream, f, chunks))
         return st
 
     # fixture corpus of the repository: sanity of the strict reader as well
@@ -189,7 +189,13 @@ def run(ctx):
             model_cases.append((lp.model_expr(specs[0], chunks, [[("read", None)]] * 4, rec), obs, {"stream": s}))
     # grammar-based pipelines with random mutations, several safe configurations
     for tag, s in gen_streams(ctx, 6000 if quick else 300000):
-        one(tag, s, spec=ctx.rng.choice(specs))
+        # a byte stream reaches the parser in whatever pieces TCP delivers: a third of the pipelines arrive segmented (cut in two,
+        # at random points, in small pieces) - the strict reading of the BYTES is the same
+        chunks = None
+        if len(s) > 1 and ctx.rng.random() < 0.34:
+            name, chunks = next(lp.segmentations(ctx.rng, s, [ctx.rng.choice(["cut", "random", "random", "small", "lines"])]))
+            ctx.hist("segmentation", name.split("@")[0])
+        one(tag, s, spec=ctx.rng.choice(specs), chunks=chunks)
     if not quick:
         # pairs of sweep mutations
         base = list(sweep(all_positions=False))
@@ -204,12 +210,16 @@ def run(ctx):
     ctx.sample({"template": TEMPLATES[0].decode("latin-1"), "classes": [n for n, _ in CLASS_MUTATIONS][:10]})
     ctx.log("%d streams judged against the strict reader: %d failures" % (nstreams, len(fails)))
     seen_kinds = set()
-    for tag, stream, (what, detail) in fails:
+    for tag, stream, (what, detail), chunks in fails:
         kind = what.split(":")[0][:60]
         if kind in seen_kinds and len(ctx.violations) >= 1:
             continue
         seen_kinds.add(kind)
-        ctx.violation(what, {"kind": "c01", "stream": stream.decode("latin-1"), "detail": detail, "tag": repr(tag)})
+        rep = {"kind": "c01", "stream": stream.decode("latin-1"), "detail": detail, "tag": repr(tag)}
+        if chunks is not None:
+            rep["chunks"] = [c.decode("latin-1") for c in chunks]
+            what += " (the stream arrived in pieces of %r bytes)" % ([len(c) for c in chunks][:12],)
+        ctx.violation(what, rep)
         if len(ctx.violations) >= 3:
             break
     bad = ctx.correspond("c01", lp.HEADER, model_cases, shard=80)
@@ -268,7 +278,8 @@ def framing_cases(ctx):
 
 def replay(rep):
     stream = rep["stream"].encode("latin-1")
-    st = impl_requests(lp.make_spec(), stream)
+    chunks = [c.encode("latin-1") for c in rep["chunks"]] if rep.get("chunks") else None
+    st = impl_requests(lp.make_spec(), stream, chunks)
     f = judge(stream, st)
     print("strict:", rfc9112.strict_stream(stream))
     print("impl  :", [{k: v for k, v in i.items() if k != "headers"} for i in st])
